@@ -287,8 +287,43 @@ class Task:
         self.last_site = None
 
 
+_WINDOW_SITES = {}
+
+
+def window_sites(lark_root):
+    """(file, line) of the first line INSIDE every lazy-initialisation branch of the lark sources: the line after `if <x> is None:`,
+    `if not hasattr(...)`, `except AttributeError:` / `except KeyError:`.  A task parked exactly there has decided to initialise and
+    has not started: the window of every check-then-act race.  Found by scanning the source text (no list of names)."""
+    if lark_root in _WINDOW_SITES:
+        return _WINDOW_SITES[lark_root]
+    import re
+    guard = re.compile(r'^\s*(if .*\bis None\s*:|if not hasattr\(.*:|except (AttributeError|KeyError)\s*:|if not self\.\w+\s*:|if \w+ not in self\.\w+\s*:)\s*(#.*)?$')
+    sites = set()
+    for dirpath, _dirs, files in os.walk(lark_root):
+        for fn in files:
+            if not fn.endswith('.py'):
+                continue
+            path = os.path.join(dirpath, fn)
+            try:
+                lines = open(path, encoding='utf8').read().split('\n')
+            except OSError:
+                continue
+            rel = path[len(lark_root):]
+            for i, line in enumerate(lines):
+                if guard.match(line):
+                    j = i + 1
+                    while j < len(lines) and (not lines[j].strip() or lines[j].strip().startswith('#')):
+                        j += 1
+                    if j < len(lines):
+                        sites.add((rel, j + 1))
+    _WINDOW_SITES[lark_root] = frozenset(sites)
+    return _WINDOW_SITES[lark_root]
+
+
 class Scheduler:
     """strategy: {'kind': 'random', 'p': 0.05} | {'kind': 'pct', 'd': 2, 'est_steps': N} | {'kind': 'burst', 'p': 0.3, 'n': 400, 'p2': 0.01}
+                 | {'kind': 'window', 'targets': [k, ...], 'p2': 0.002}: the running task is PARKED (lowest priority: everybody else goes
+                   first, to completion if nothing else happens) at its k-th arrival at a lazy-initialisation window (window_sites)
                  | {'kind': 'serial'} (no pre-emption: tasks run to completion in index order)"""
 
     DEFAULT_CAP = 3_000_000
@@ -322,6 +357,10 @@ class Scheduler:
         self.p = strategy.get('p', 0.05)
         self._pct_points = None
         self.interleave_hash = 0
+        self._window_sites = window_sites(lark_root) if (self.kind == 'window' and lark_root) else frozenset()
+        self._win_n = 0
+        self._win_targets = frozenset(strategy.get('targets', ())) if self.kind == 'window' else frozenset()
+        self.window_parks = 0
 
     # -------------------------------------------------------------- set-up
     def spawn(self, ops, interrupts=None, step_caps=None):
@@ -432,7 +471,23 @@ class Scheduler:
             kind = self.kind
             if kind == 'serial':
                 return
-            if kind == 'pct':
+            if kind == 'window':
+                hit = False
+                if frame is not None and (frame.f_code.co_filename[len(self.lark_root):], frame.f_lineno) in self._window_sites:
+                    self._win_n += 1
+                    hit = self._win_n in self._win_targets
+                if not hit and self.rng.random() >= self.strategy.get('p2', 0.002):
+                    return
+                r = [t for t in self._runnable() if t is not task]
+                if not r:
+                    return
+                if hit:
+                    task.prio = min(t.prio for t in self.tasks) - 1
+                    self.window_parks += 1
+                    nxt = max(r, key=lambda t: (t.prio, -t.idx))
+                else:
+                    nxt = r[self.rng.randrange(len(r))] if len(r) > 1 else r[0]
+            elif kind == 'pct':
                 if self._pct_points and self.gsteps in self._pct_points:
                     task.prio = min(t.prio for t in self.tasks) - 1
                 else:
@@ -503,7 +558,7 @@ class Scheduler:
                 nxt = r[0]
                 if want is not None:
                     self.deviations += 1
-        elif self.kind == 'pct':
+        elif self.kind in ('pct', 'window'):
             nxt = max(r, key=lambda t: (t.prio, -t.idx))
         elif self.kind == 'serial':
             nxt = r[0]
@@ -555,6 +610,11 @@ class Scheduler:
             self.rng.shuffle(prios)
             for t, pr in zip(self.tasks, prios):
                 t.prio = pr
+        if self.kind == 'window' and self.forced is None:
+            prios = list(range(len(self.tasks)))
+            self.rng.shuffle(prios)
+            for t, pr in zip(self.tasks, prios):
+                t.prio = pr
         CUR = self
         gc_was = gc.isenabled()
         gc.disable()            # cyclic GC could run lark generator finalisers at allocation-dependent points
@@ -567,7 +627,7 @@ class Scheduler:
             elif self.forced is not None:
                 f = self.forced.get((-1, 'start'))
                 first = self.tasks[f] if f is not None else self.tasks[0]
-            elif self.kind == 'pct':
+            elif self.kind in ('pct', 'window'):
                 first = max(self.tasks, key=lambda t: (t.prio, -t.idx))
             elif self.kind == 'serial':
                 first = self.tasks[0]
